@@ -36,14 +36,21 @@ Record prov := {
   p_sdone : nat         (* how many times this provider called startWg.Done() *)
 }.
 
-(* program counter of the goroutine that calls Start and later Stop *)
-Inductive cpc :=
+(* program counter of the goroutine that calls Start *)
+Inductive spc :=
 | CIdle
 | CAddStop (i : nat)     (* Start loop, provider i: before s.stopProvidersWg.Add(1) *)
 | CAddStart (i : nat)    (*                         before startWg.Add(1) *)
 | CGo (i : nat)          (*                         before go provider.Start(...) *)
 | CStartWait             (* at startWg.Wait() *)
-| CRunning               (* Start has returned *)
+| CRunning.              (* Start has returned *)
+
+(* program counter of the goroutine that calls Stop.  It may be another goroutine than the one in Start:
+   Stop can be issued as soon as Start has launched every provider (it is then waiting at startWg.Wait()
+   or has returned).  A Stop that overlaps Start's launching loop itself is excluded: it would call
+   WaitGroup.Wait concurrently with WaitGroup.Add at counter zero, which sync.WaitGroup forbids. *)
+Inductive tpc :=
+| TIdle
 | CStopCall (i : nat)    (* Stop loop: before providers[i].Stop(ctx) *)
 | CStopDrain (i : nat)   (* inside providers[i].Stop: Shutdown / GracefulStop called, not yet returned *)
 | CStopWait              (* at s.stopProvidersWg.Wait() *)
@@ -51,7 +58,8 @@ Inductive cpc :=
 
 Record st := {
   s_provs : list prov;
-  s_caller : cpc;
+  s_start : spc;
+  s_stop : tpc;
   s_startwg : Z;         (* counter of Start's local WaitGroup *)
   s_stopwg : Z;          (* counter of the caller-supplied WaitGroup *)
   s_ctx : bool           (* the context given to Stop has ended *)
@@ -90,15 +98,17 @@ Fixpoint upd_nth {A} (i : nat) (f : A -> A) (l : list A) : list A :=
   end.
 
 Definition with_provs (ps : list prov) (s : st) : st :=
-  {| s_provs := ps; s_caller := s_caller s; s_startwg := s_startwg s; s_stopwg := s_stopwg s; s_ctx := s_ctx s |}.
-Definition with_caller (c : cpc) (s : st) : st :=
-  {| s_provs := s_provs s; s_caller := c; s_startwg := s_startwg s; s_stopwg := s_stopwg s; s_ctx := s_ctx s |}.
+  {| s_provs := ps; s_start := s_start s; s_stop := s_stop s; s_startwg := s_startwg s; s_stopwg := s_stopwg s; s_ctx := s_ctx s |}.
+Definition with_start (c : spc) (s : st) : st :=
+  {| s_provs := s_provs s; s_start := c; s_stop := s_stop s; s_startwg := s_startwg s; s_stopwg := s_stopwg s; s_ctx := s_ctx s |}.
+Definition with_stop (c : tpc) (s : st) : st :=
+  {| s_provs := s_provs s; s_start := s_start s; s_stop := c; s_startwg := s_startwg s; s_stopwg := s_stopwg s; s_ctx := s_ctx s |}.
 Definition add_startwg (d : Z) (s : st) : st :=
-  {| s_provs := s_provs s; s_caller := s_caller s; s_startwg := (s_startwg s + d)%Z; s_stopwg := s_stopwg s; s_ctx := s_ctx s |}.
+  {| s_provs := s_provs s; s_start := s_start s; s_stop := s_stop s; s_startwg := (s_startwg s + d)%Z; s_stopwg := s_stopwg s; s_ctx := s_ctx s |}.
 Definition add_stopwg (d : Z) (s : st) : st :=
-  {| s_provs := s_provs s; s_caller := s_caller s; s_startwg := s_startwg s; s_stopwg := (s_stopwg s + d)%Z; s_ctx := s_ctx s |}.
+  {| s_provs := s_provs s; s_start := s_start s; s_stop := s_stop s; s_startwg := s_startwg s; s_stopwg := (s_stopwg s + d)%Z; s_ctx := s_ctx s |}.
 Definition with_ctx (s : st) : st :=
-  {| s_provs := s_provs s; s_caller := s_caller s; s_startwg := s_startwg s; s_stopwg := s_stopwg s; s_ctx := true |}.
+  {| s_provs := s_provs s; s_start := s_start s; s_stop := s_stop s; s_startwg := s_startwg s; s_stopwg := s_stopwg s; s_ctx := true |}.
 
 Definition kind_eqb (a b : kind) : bool :=
   match a, b with KHttp, KHttp | KGrpc, KGrpc => true | _, _ => false end.
@@ -113,7 +123,7 @@ Definition init_prov (k : kind) : prov :=
   {| p_kind := k; p_pc := GNone; p_shut := false; p_bound := false; p_inflight := 0; p_sdone := 0 |}.
 (* w0 = value of the caller's WaitGroup counter before Start *)
 Definition init (kinds : list kind) (w0 : Z) : st :=
-  {| s_provs := map init_prov kinds; s_caller := CIdle; s_startwg := 0%Z; s_stopwg := w0; s_ctx := false |}.
+  {| s_provs := map init_prov kinds; s_start := CIdle; s_stop := TIdle; s_startwg := 0%Z; s_stopwg := w0; s_ctx := false |}.
 
 Section Step.
   (* what the library may do (see the header): may the serve loop of p return now?  may the
@@ -122,8 +132,8 @@ Section Step.
   Variable drain_ret : prov -> bool -> bool.
 
   (* after the loop body for provider i *)
-  Definition next_start (n i : nat) : cpc := if S i <? n then CAddStop (S i) else CStartWait.
-  Definition next_stop (n i : nat) : cpc := if S i <? n then CStopCall (S i) else CStopWait.
+  Definition next_start (n i : nat) : spc := if S i <? n then CAddStop (S i) else CStartWait.
+  Definition next_stop (n i : nat) : tpc := if S i <? n then CStopCall (S i) else CStopWait.
 
   Definition step_prov (i : nat) (s : st) (f : prov -> option (prov * (st -> st))) : option st :=
     match nth_error (s_provs s) i with
@@ -140,14 +150,14 @@ Section Step.
     match l with
     (* ---- environment ---- *)
     | LCallStart =>
-        match s_caller s with
-        | CIdle => Some (with_caller (if 0 <? n then CAddStop 0 else CStartWait) s)
+        match s_start s with
+        | CIdle => Some (with_start (if 0 <? n then CAddStop 0 else CStartWait) s)
         | _ => None
         end
-    | LCallStop =>
-        match s_caller s with
-        | CRunning => Some (with_caller (if 0 <? n then CStopCall 0 else CStopWait) s)
-        | _ => None
+    | LCallStop =>                                       (* from any goroutine, once every provider was launched *)
+        match s_stop s, s_start s with
+        | TIdle, CStartWait | TIdle, CRunning => Some (with_stop (if 0 <? n then CStopCall 0 else CStopWait) s)
+        | _, _ => None
         end
     | LCtxExpire => Some (with_ctx s)
     | LReqBegin i =>
@@ -158,28 +168,28 @@ Section Step.
           match p_inflight p with O => None | S k => Some (set_inflight k p, fun s => s) end)
     (* ---- Start ----   for _, provider := range s.providers { *)
     | LAddStop =>                                       (* s.stopProvidersWg.Add(1) *)
-        match s_caller s with
-        | CAddStop i => Some (with_caller (CAddStart i) (add_stopwg 1 s))
+        match s_start s with
+        | CAddStop i => Some (with_start (CAddStart i) (add_stopwg 1 s))
         | _ => None
         end
     | LAddStart =>                                      (* startWg.Add(1) *)
-        match s_caller s with
-        | CAddStart i => Some (with_caller (CGo i) (add_startwg 1 s))
+        match s_start s with
+        | CAddStart i => Some (with_start (CGo i) (add_startwg 1 s))
         | _ => None
         end
     | LGo =>                                            (* go provider.Start(ctx, startWg, s.stopProvidersWg) *)
-        match s_caller s with
+        match s_start s with
         | CGo i =>
             step_prov i s (fun p =>
               match p_pc p with
-              | GNone => Some (set_pc GSpawned p, with_caller (next_start n i))
+              | GNone => Some (set_pc GSpawned p, with_start (next_start n i))
               | _ => None
               end)
         | _ => None
         end
     | LStartReturn =>                                   (* startWg.Wait(); return nil *)
-        match s_caller s with
-        | CStartWait => if Z.eqb (s_startwg s) 0 then Some (with_caller CRunning s) else None
+        match s_start s with
+        | CStartWait => if Z.eqb (s_startwg s) 0 then Some (with_start CRunning s) else None
         | _ => None
         end
     (* ---- provider goroutines ---- *)
@@ -218,14 +228,14 @@ Section Step.
           end)
     (* ---- Stop ----   for _, provider := range s.providers { e := provider.Stop(ctx) ... } *)
     | LStopCall =>                                      (* Shutdown(ctx) / GracefulStop() is entered *)
-        match s_caller s with
+        match s_stop s with
         | CStopCall i =>
             step_prov i s (fun p =>
-              Some (set_shut (if pc_eqb (p_pc p) GServing then set_bound false p else p), with_caller (CStopDrain i)))
+              Some (set_shut (if pc_eqb (p_pc p) GServing then set_bound false p else p), with_stop (CStopDrain i)))
         | _ => None
         end
     | LForce =>                                         (* gRPC: case <-ctx.Done(): p.grpcServer.Stop() *)
-        match s_caller s with
+        match s_stop s with
         | CStopDrain i =>
             step_prov i s (fun p =>
               match p_kind p, p_inflight p with
@@ -235,15 +245,15 @@ Section Step.
         | _ => None
         end
     | LStopProvReturn =>                                (* Shutdown / GracefulStop returns *)
-        match s_caller s with
+        match s_stop s with
         | CStopDrain i =>
             step_prov i s (fun p =>
-              if drain_ret p (s_ctx s) then Some (p, with_caller (next_stop n i)) else None)
+              if drain_ret p (s_ctx s) then Some (p, with_stop (next_stop n i)) else None)
         | _ => None
         end
     | LStopReturn =>                                    (* s.stopProvidersWg.Wait(); return err *)
-        match s_caller s with
-        | CStopWait => if Z.eqb (s_stopwg s) 0 then Some (with_caller CStopped s) else None
+        match s_stop s with
+        | CStopWait => if Z.eqb (s_stopwg s) 0 then Some (with_stop CStopped s) else None
         | _ => None
         end
     end.
